@@ -186,6 +186,9 @@ enum Op {
     Size,
     Stats,
     Settle { ms: u64 },
+    /// the layered cache is dropped and created again with the same configuration over the same directories:
+    /// memory layers start empty, disk layers find the files the earlier instance left
+    Reopen,
 }
 
 impl Op {
@@ -214,6 +217,7 @@ impl Op {
             Op::Size => "size",
             Op::Stats => "stats",
             Op::Settle { .. } => "settle(harness)",
+            Op::Reopen => "reopen(harness)",
         }
     }
 }
@@ -383,10 +387,19 @@ struct Cell {
     cur: Vec<Val>,
     past: Vec<Past>,
     counted_dropped: bool,
+    /// the current value(s) were written through an earlier instance of the cache (disk layers, see `Op::Reopen`)
+    carried: bool,
 }
 
 impl Cell {
     fn retire(&mut self, why: &'static str) {
+        // the distinguishing condition of the witness: the entry was left by an earlier instance
+        let why = match (self.carried, why) {
+            (true, "removed") => "removed-entry-of-earlier-instance",
+            (true, "cleared") => "cleared-entry-of-earlier-instance",
+            _ => why,
+        };
+        self.carried = false;
         for v in self.cur.drain(..) {
             self.past.push(Past { hash: fnv64(&v.bytes), len: v.bytes.len(), why });
         }
@@ -436,6 +449,8 @@ type Probe = Result<Option<Bytes>, String>;
 enum Stop {
     Hang(Hang),
     Panic { op_index: usize, api: String, msg: String },
+    /// the harness could not go on (never a verdict about the cache)
+    Harness(String),
 }
 
 struct Runner<'a> {
@@ -457,6 +472,8 @@ struct Runner<'a> {
     validation_failure_injected: bool,
     /// stop after this op index (re-runs of a hang)
     stop_after: Option<usize>,
+    /// index of the latest `Reopen`
+    reopened_at: Option<usize>,
 }
 
 impl<'a> Runner<'a> {
@@ -796,6 +813,9 @@ impl<'a> Runner<'a> {
                 let k = *k;
                 let kk = key(k);
                 let r = self.guarded(api, "-", move |w| w.rt.block_on(w.cache.remove(&kk)).map_err(|e| e.to_string()))?;
+                if self.reopened_at == Some(self.op_index.wrapping_sub(1)) && (0..self.n_layers).any(|l| self.model[l][k].carried && !self.model[l][k].cur.is_empty()) {
+                    self.bump("reopen.remove_right_after_reopen_of_a_key_left_on_disk", 1);
+                }
                 match r {
                     Ok(found) => {
                         self.bump(&format!("remove.returned_{found}"), 1);
@@ -811,6 +831,9 @@ impl<'a> Runner<'a> {
             }
             Op::Clear => {
                 let r = self.guarded(api, "-", move |w| w.rt.block_on(w.cache.clear()).map_err(|e| e.to_string()))?;
+                if self.reopened_at == Some(self.op_index.wrapping_sub(1)) && self.model.iter().any(|lay| lay.iter().any(|c| c.carried && !c.cur.is_empty())) {
+                    self.bump("reopen.clear_right_after_reopen_over_entries_left_on_disk", 1);
+                }
                 match r {
                     Ok(()) => {
                         for l in 0..self.n_layers {
@@ -1160,6 +1183,46 @@ impl<'a> Runner<'a> {
                 let ms = *ms;
                 self.guarded("settle(harness)", "-", move |w| w.rt.block_on(async move { tokio::time::sleep(Duration::from_millis(ms)).await }))?;
             }
+            Op::Reopen => {
+                // a new instance with the same configuration over the same directories, then the old one is dropped
+                let (cfg, root) = (self.h.cfg.clone(), self.root.clone());
+                let world = match run_with_timeout(Duration::from_secs(20), move || build_world(&cfg, &root)) {
+                    Outcome::Done(Ok(w)) => Arc::new(w),
+                    Outcome::Done(Err(e)) => return Err(Stop::Harness(format!("cannot re-create MultiLayerCacheImpl: {e}"))),
+                    Outcome::Panicked(msg) => return Err(Stop::Panic { op_index: self.op_index, api: "new(re-created over existing directories)".into(), msg }),
+                    Outcome::TimedOut => return Err(Stop::Harness("re-creating MultiLayerCacheImpl did not return within 20 s".into())),
+                };
+                let old = std::mem::replace(&mut self.world, world);
+                match run_with_timeout(Duration::from_secs(20), move || drop(old)) {
+                    Outcome::Done(()) => {}
+                    Outcome::Panicked(msg) => return Err(Stop::Panic { op_index: self.op_index, api: "drop".into(), msg }),
+                    Outcome::TimedOut => return Err(Stop::Harness("dropping the earlier MultiLayerCacheImpl did not return within 20 s".into())),
+                }
+                let mut carried = 0;
+                for l in 0..self.n_layers {
+                    let disk = matches!(self.h.cfg.layers[l], LayerKind::Disk { .. });
+                    for c in &mut self.model[l] {
+                        if disk {
+                            // what the earlier instance left on disk stays "the latest value put to that layer"; whether its
+                            // time-to-live survives a new instance is not this property's business (C10 lists it)
+                            for v in &mut c.cur {
+                                v.dead = false;
+                            }
+                            if !c.cur.is_empty() {
+                                c.carried = true;
+                                carried += 1;
+                            }
+                        } else {
+                            c.retire("memory-layer-content-of-earlier-instance");
+                        }
+                    }
+                }
+                for t in &mut self.touched {
+                    *t = false;
+                }
+                self.reopened_at = Some(self.op_index);
+                self.bump("reopen.entries_left_in_disk_layers", carried);
+            }
         }
         Ok(())
     }
@@ -1236,6 +1299,7 @@ fn execute(h: &History, limit: Duration, stop_after: Option<usize>) -> RunResult
         served_lower: false,
         validation_failure_injected: false,
         stop_after,
+        reopened_at: None,
     };
     res.stop = r.run().err();
     res.found = std::mem::take(&mut r.found);
@@ -1288,6 +1352,7 @@ fn run_history(ctx: &Ctx, shared: &Shared, h: &History) {
     }
     match res.stop {
         None => {}
+        Some(Stop::Harness(e)) => ctx.inconclusive(&format!("harness: {e}")),
         Some(Stop::Panic { op_index, api, msg }) => {
             ctx.violation(
                 &format!("C12|{api}|panicked"),
@@ -1449,8 +1514,21 @@ fn gen_history(rng: &mut Rng, idx: usize) -> History {
             let on_disk: Vec<(usize, usize)> = placed.iter().copied().filter(|(l, _)| disk_layers.contains(l)).collect();
             let (layer, dk) = if !on_disk.is_empty() && rng.chance(5, 6) { *rng.pick(&on_disk) } else { (*rng.pick(&disk_layers), k) };
             Op::Damage { k: dk, layer, how: *rng.pick(&[Damage::FlipByte, Damage::FlipByte, Damage::Truncate, Damage::Truncate, Damage::Delete, Damage::Delete, Damage::Replace, Damage::Replace, Damage::MakeDirectory]) }
-        } else if r < 975 {
+        } else if r < 972 {
             Op::Contains { k }
+        } else if r < 978 && !disk_layers.is_empty() {
+            // the cache is dropped and created again over its directories; half of the time the very next call is a
+            // clear / remove / read, i.e. the first thing the new instance is asked concerns what the earlier one left
+            ops.push(Op::Reopen);
+            let pk = if !placed.is_empty() && rng.chance(3, 4) { rng.pick(&placed).1 } else { k };
+            match rng.below(8) {
+                0 | 1 => Op::Clear,
+                2 | 3 => Op::Remove { k: pk },
+                4 => Op::Get { k: pk },
+                5 => Op::BatchGet { ks: vec![pk, k] },
+                6 => Op::GetValidated { k: pk, with_key: true },
+                _ => Op::Stats,
+            }
         } else if r < 983 {
             Op::Size
         } else if r < 992 || !short_cleanup || settles >= 2 {
@@ -1605,6 +1683,36 @@ fn directed() -> Vec<History> {
             ],
         });
     }
+    // 10. remove / clear / reads on a cache that was created again over the directories an earlier instance filled
+    for (lname, layers) in [("MD", vec![mem(2), disk(0)]), ("MMD", vec![mem(2), mem(8), disk(2)]), ("DM", vec![disk(1), mem(8)]), ("MDD", vec![mem(1), disk(0), disk(1)])] {
+        let d = layers.iter().position(|l| matches!(l, LayerKind::Disk { .. })).unwrap_or(0);
+        let last = layers.len() - 1;
+        v.push(History {
+            label: format!("directed:re-created-cache/{lname}"),
+            cfg: Cfg { layers, strategy: Strategy::OnHit, short_cleanup: false, hooks: Hooks::Md5 },
+            universe: 4,
+            ops: vec![
+                Op::PutToLayer { k: 0, len: 30, tag: 90, layer: d },
+                Op::PutToLayer { k: 1, len: 31, tag: 91, layer: last },
+                Op::Put { k: 2, len: 32, tag: 92 },
+                Op::Reopen,
+                Op::Get { k: 0 },
+                Op::Get { k: 2 },
+                Op::Reopen,
+                Op::Remove { k: 1 },
+                Op::Get { k: 1 },
+                Op::PutToLayer { k: 3, len: 33, tag: 93, layer: last },
+                Op::Reopen,
+                Op::Clear,
+                Op::BatchGet { ks: vec![0, 1, 2, 3] },
+                Op::PutToLayer { k: 1, len: 34, tag: 94, layer: d },
+                Op::Reopen,
+                Op::GetValidated { k: 1, with_key: true },
+                Op::Size,
+                Op::Stats,
+            ],
+        });
+    }
     // 9. a disk cache as the first layer
     v.push(History {
         label: "directed:first-layer-on-disk".into(),
@@ -1662,7 +1770,7 @@ fn main() {
     let fake_bin = install_noop_sync();
     let ctx = Ctx::init("C12", "exploration");
     quiet_stderr();
-    ctx.set_rule("histories of 10-80 operations (put / put_with_ttl / put_to_layer / get / get_from_layer / promote / remove / clear / batch_get / batch_put / put_with_validation / get_with_validation + corruption, truncation, deletion of disk-layer files) over 2-3 layers (memory L1 with max_entries 1-3; memory or disk L2/L3), all five promotion strategies, every call under a 5 s watchdog; non-trivial = some get served by a layer > 0 or a validation failure injected; distinct by hash of (configuration, operation list)");
+    ctx.set_rule("histories of 10-80 operations (put / put_with_ttl / put_to_layer / get / get_from_layer / promote / remove / clear / batch_get / batch_put / put_with_validation / get_with_validation + corruption, truncation, deletion of disk-layer files + dropping the cache and creating it again over the same directories) over 2-3 layers (memory L1 with max_entries 1-3; memory or disk L2/L3), all five promotion strategies, every call under a 5 s watchdog; non-trivial = some get served by a layer > 0 or a validation failure injected; distinct by hash of (configuration, operation list)");
     ctx.assume("a call that needs more than 5 s (8 s on re-runs) three times in a row from the same recorded history never returns");
     ctx.assume("bytes written into a disk layer's file by the harness count as the value 'put to that layer' (plain reads are not validated by the statement)");
     if fake_bin.is_none() {
@@ -1741,6 +1849,9 @@ fn main() {
             ("damage.file_MakeDirectory".into(), "no disk-layer file was replaced by a directory"),
             ("validation.returned_object_self_check_judged".into(), "the object returned by a validated read was never cross-checked"),
             ("layer_stats.invalid_layer_refused".into(), "layer_count / layer_stats were never called"),
+            ("reopen.entries_left_in_disk_layers".into(), "the cache was never created again over a directory that held entries"),
+            ("reopen.clear_right_after_reopen_over_entries_left_on_disk".into(), "clear was never the first call on a cache created again over a filled directory"),
+            ("reopen.remove_right_after_reopen_of_a_key_left_on_disk".into(), "remove was never the first call on a cache created again over a directory holding the key"),
         ];
         for api in ["get", "get_with_validation(no key)", "batch_get", "search_content"] {
             need.push((format!("break.entry_only_behind_the_failing_layer.{api}"), "a read entry point never met a failing faster layer with the entry behind it"));
